@@ -78,8 +78,11 @@ func verifEnd(blocked bool, mode int, o *verifOutcome, fallbackUsed, fallbackSet
 
 type verifWriter struct {
 	gin.ResponseWriter
-	status int
+	status  int
+	written bool // an earlier middleware already committed the response header
 }
+
+func (w *verifWriter) Written() bool { return w.written }
 
 func (w *verifWriter) WriteHeader(code int) { w.status = code }
 func (w *verifWriter) WriteHeaderNow()      {}
@@ -102,7 +105,7 @@ func VerifC19Middleware() {
 		opts = append(opts, WithBlockFallback(nil)) // an explicitly nil fallback counts as not configured
 	}
 	mw := SentinelMiddleware(opts...)
-	wr := &verifWriter{}
+	wr := &verifWriter{written: rt.Bool("headerAlreadyWritten")}
 	c := &gin.Context{Request: &http.Request{Method: "GET"}, Writer: wr}
 	rt.Poke(c, "handlers", gin.HandlersChain{mw, func(*gin.Context) { verifHandlerMode(o, mode) }})
 	rt.Poke(c, "index", int8(-1))
